@@ -14,8 +14,13 @@
         <spent: value:script | none ,…> <ms: none | scriptSig:ok ,…> <sig,sig,…>
         -> ok <file> <signed 0|1>
     sel <useall> <need>                                   -> ok <picked idx list> <total>   (selection loop only)
+    dig <ver> <lock> <txid:vout:scriptSig:seq,…> <value:script,…> <spent value:script,…> <i> <scriptCode> <amount>
+        -> ok <legacy> <bip143> <bip341-keypath>     the digests `c02Crypto` (Spec/WalletTxDigest.lean) computes from the
+           SKELETON of the transaction for input i: SIGHASH_ALL legacy and BIP143 digest for the script code / amount,
+           SIGHASH_DEFAULT key-path digest ("-" where the model function hands out no digest)
 -/
 import GocoinV.Model.WalletTx
+import GocoinV.Spec.WalletTxDigest
 import GocoinV.Base.Ripemd160
 import GocoinV.Base.Sha256
 import GocoinV.Base.Proto
@@ -135,6 +140,14 @@ def step (st : St) (toks : List String) : St × String :=
       let t : Tx := { version := ver, ins := ins, outs := outs, wit := wit, lockTime := lock }
       let (t', ok) := runRaw H c st.ks t spent (sigFn sigs) (fun i => (ms.getD i none))
       (st, s!"ok {Hex.encode (fileBytes t')} {Proto.boolStr ok}")
+    | _, _, _, _, _, _, _, _ => bad
+  | ["dig", ver, lock, ins, outs, spent, i, sc, amount] =>
+    match ver.toNat?, lock.toNat?, listOf ins inOf, listOf outs outOfS, listOf spent outOfS, i.toNat?, Hex.decode sc, amount.toNat? with
+    | some ver, some lock, some ins, some outs, some spent, some i, some sc, some amount =>
+      let t : Tx := { version := ver, ins := ins, outs := outs, wit := none, lockTime := lock }
+      let C := c02Crypto sha256 hash160 (fun _ _ _ => false) (fun _ _ _ => false)
+      let sk := skeleton t
+      (st, s!"ok {Hex.encode (C.legacyDigest sk i sc 1)} {Hex.encode (C.witnessDigest sk i sc amount 1)} {Hex.encode (C.taprootDigest sk spent i 0)}")
     | _, _, _, _, _, _, _, _ => bad
   | _ => bad
 
